@@ -2,7 +2,7 @@
    acceptor of Model/CoStream.v (see Properties/C13.v for the reading). *)
 From Coq Require Import List Arith Bool.
 Import ListNotations.
-Require Import CoStream CoFacts CoTake.
+Require Import CoStream CoFacts CoTake CoDrop.
 
 (* once an error has been recorded no further source item is accepted *)
 Theorem C14_stops_taking c es s k j : run c (init c) es k = (s, None) -> residual s <> None -> step c s (ESrc (Some j)) = None.
@@ -46,3 +46,10 @@ Example C14_witness :
   snd (run c (init c) [ESrc (Some 0); ECall 1 0 None; EDone 1 0 (Some 7); ESrc (Some 1)] 0) = Some 3 /\
   snd (run c (init c) [ESrc (Some 0); ECall 1 0 None; EDone 1 0 (Some 7); EResult ROkUnit] 0) = Some 3.
 Proof. vm_compute. repeat split; reflexivity. Qed.
+
+(* "all futures still in flight are dropped unfinished no later than the moment the operation's own future is dropped": the same statement read
+   for try_for_each / collect into Result - a closure future that has not completed by the end of a settled accepted history was dropped in it. *)
+Theorem C14_in_flight_futures_dropped_with_the_operation c es s k : run c (init c) es k = (s, None) -> settled s = true ->
+  forall stg j idx, In (ECall stg j idx) es -> (exists e, In (EDone stg j e) es) \/ In (EDropWork stg j) es.
+Proof. exact (closure_futures_completed_or_dropped c es s k). Qed.
+Print Assumptions C14_in_flight_futures_dropped_with_the_operation.
